@@ -177,6 +177,16 @@ CHECKS.update({
     },
 })
 
+CHECKS.update({
+    "C08": {
+        "category": "model_checking",
+        "text": "Pool.tla in THREAD mode (cfg.threads: enqueue, pass, closing of evicted connections, the refusal at the ACTIVE gate and the re-queue are separate steps; tasks interleave at every lock and network operation) is model-checked by TLC for every pool invariant plus NoCollateral and, under fairness, Progress (no lost wake-up). The real httpcore.ConnectionPool is then run by real threads under a controlled baton-passing scheduler (httpcore._synchronization.threading replaced at run time by scheduler-aware Lock/Event/Semaphore; pre-emption at every lock acquire/release, Event.wait and simulated network operation) over serial, round-robin, pre-emption-bounded (all single, sampled pairs), PCT and random schedules; TLC validates every execution against PoolTrace in thread mode. Schedules that additionally pre-empt at random SOURCE LINES of httpcore/_sync/*.py are judged by the monitor ThreadCoarse.tla (own response, at most one stream, limit, no failing operation, no internal error, no hang, pool at rest).",
+        "design_ref": "DESIGN.md 4.1, 5 (C08)",
+        "technique": "TLA+ model checking (TLC, thread-grain Pool) + TLC trace validation of executions of the real sync pool under a controlled thread scheduler",
+        "note": "Trusted: TLC 1.8.0, harness/tsched.py (scheduler, fake primitives), simnet. 2-4 threads, one request each, HTTP/1.1 origins; line-grain schedules are sampled, not enumerated, and judged only by the coarse monitor. KF09 (evicted connection activated) is a listed finding.",
+    },
+})
+
 NOT_YET = {
     "C01": "not claimed yet: Pool/H2Conn trace clauses for response ownership are under construction",
     "C02": "not claimed yet: Framing module under construction",
